@@ -6,6 +6,12 @@ MODS = cm.MODS_CORE + ['contracts.c_math']
 FOCUS = 'range'
 FUNCS = cm.UTILS + cm.SCANNER + cm.BUFFER + cm.PARSER + cm.TEX2TXT + \
     cm.HANDLERS + cm.MATH
+# multi-language mode: the mechanically lifted tail of tex2txt.tex2txt (from
+# `main_lang = ...` to `return ml`) and the section splitter it calls
+MORE = [(['yalafi.tex2txt.tex2txt.<ml_tail>', 'yalafi.utils.get_txt_pos_ml',
+          'yalafi.utils.ml_append_placeholder'],
+         ['contracts.c_externs', 'contracts.c_utils', 'contracts.c_tex2txt',
+          'contracts.c_ml'])]
 
 
 def SELECT(name):
@@ -18,9 +24,9 @@ LEVEL_TEXT = ('Deductive proof, function by function over the real sources, of t
     '(0 <= pos < N; pos + len(txt) <= N unless all characters share one position) at every site that creates, copies '
     'or stamps a token in scanner.py, parser.py and utils.py, of the lock-step text/map construction in get_txt_pos, of '
     'the range preservation of substitute/replace_phrases, and of the composition lemma of tex2txt.tex2txt '
-    '(len(text) == len(map), 1 <= p <= len(source)) from the callee contracts, for all inputs and iterations.')
+    '(len(text) == len(map), 1 <= p <= len(source)) from the callee contracts, for all inputs and iterations, in single-language mode and (lifted tail) for every part returned in multi-language mode.')
 LEVEL_NOTE = ('Trusted: the pyvc VC generator and encodings, z3; assumed contracts for the standard library and for '
     'object construction / module loading (Parser(), Parameters(), get_packages); handlers of macros are represented by '
     'the generic handler contract H at their call site (each shipped handler is checked against H in C04/C07); '
-    'multi-language composition is covered by the lemmas of C12 only; assumption NoMathTokensInTextOutput.')
+    'multi-language mode: the tail of tex2txt.tex2txt is lifted mechanically and proved (every part of every language has len(text) == len(map) and 1-based positions inside the source, given the contract of get_txt_pos_ml, which is proved as well); assumption NoMathTokensInTextOutput.')
 TECHNIQUE = 'contract-based deductive verification: VCs generated from the Python AST of the real functions (object invariant + loop invariants + callee contracts), discharged by z3'
